@@ -260,7 +260,7 @@ def _walker_rows(ctx, f, hp, kp):
         elif p.exit[0] == "return":
             rv = st.ret
             if rv is None or rv == C(None):
-                acts.append("return")
+                acts.append("end" if f.is_generator else "return")  # a generator's bare return is its end
             elif is_c(rv):
                 acts.append("return:%r" % (rv[1],))
             else:
@@ -274,7 +274,20 @@ def _walker_rows(ctx, f, hp, kp):
         else:
             acts.append("end" if f.is_generator else "return")
         rows.setdefault(case, set()).add(" ".join(acts))
+    # a row that holds for several node kinds alike (`if nodetype not in (KV, BRANCH): raise` ... shared code)
+    # is one row per kind
+    for k in [k_ for k_ in rows if k_.startswith("ANY(") and ")" in k_]:
+        members = k[4:k.index(")")].split("/")
+        rest = k[k.index(")") + 1:]
+        if members and all(m_ in ("LEAF", "KV", "BRANCH") for m_ in members) and not descents_any(descents, k):
+            outs = rows.pop(k)
+            for m_ in members:
+                rows.setdefault(m_ + rest, set()).update(outs)
     return rows, descents
+
+
+def descents_any(descents, case):
+    return any(d[0] == case for d in descents)
 
 
 # expected decision tables, confirmed by reading today's tree (section 3.8, SIB4)
@@ -294,13 +307,13 @@ EXPECT = {
         "BRANCH:empty": {"return:True"}, "BRANCH:nonempty:bit0": {"descend:L:K[1:] return:rec"}, "BRANCH:nonempty:bit1": {"descend:R:K[1:] return:rec"},
     },
     "trie.branches:_get_branch": {
-        "BLANK": {"return"},
+        "BLANK": {"end"},
         "LEAF:empty": {"yield end"}, "LEAF:nonempty": {"raise:InvalidKeyError"},
         "KV:empty": {"raise:InvalidKeyError"}, "KV:nonempty:match": {"yield descend:R:K[len(P):] end"}, "KV:nonempty:mismatch": {"yield end"},
         "BRANCH:empty": {"raise:InvalidKeyError"}, "BRANCH:nonempty:bit0": {"yield descend:L:K[1:] end"}, "BRANCH:nonempty:bit1": {"yield descend:R:K[1:] end"},
     },
     "trie.branches:_get_trie_nodes": {
-        "ABSENT": {"return"},
+        "ABSENT": {"end"},
         "KV": {"yield subtrie:R:- end"}, "BRANCH": {"yield subtrie:L:- subtrie:R:- end"}, "LEAF": {"yield end"},
     },
 }
